@@ -134,6 +134,7 @@ type streamSpec struct {
 	//                               (or, when its wrapping makes the half-close invisible, after the peer reported its end)
 	Wrap int `json:"wrap"` // how the endpoint is handed to the relay, see wrapEndpoint
 	Lax  bool `json:"lax"` // false: the endpoint ENFORCES its half-close (a Write after CloseWrite fails with io.ErrClosedPipe)
+	IdleS int `json:"idle_s"` // gated endpoints: logical seconds the peer stays silent after the half-close before it goes on
 	Empties []bool `json:"empties"` // Empties[i]: the i-th Read call returns (0, nil) — allowed by io.Reader — and consumes nothing
 }
 
@@ -161,6 +162,12 @@ type streamFake struct {
 	wkind       int
 	ioAfterClos int
 
+	idle         time.Duration // logical idle period served when the gate opens
+	idled        bool
+	clockOff     time.Duration // logical clock = real clock + clockOff
+	deadline     time.Time     // read deadline armed through SetReadDeadline (net.Conn semantics, absolute)
+	deadlineSets int
+	deadlineHits int
 	lax          bool
 	empties      []bool
 	readIdx      int
@@ -191,7 +198,8 @@ func (f *streamFake) markEnded() {
 
 func newStreamFake(name string, s streamSpec, log *evlog, spin chan string) *streamFake {
 	f := &streamFake{name: name, log: log, spin: spin, data: unhx(s.Data), cuts: append([]int(nil), s.Cuts...),
-		end: s.End, wd: s.WD, gate: s.Gate, wlimit: s.WLimit, wkind: s.WKind, lax: s.Lax, empties: s.Empties}
+		end: s.End, wd: s.WD, gate: s.Gate, wlimit: s.WLimit, wkind: s.WKind, lax: s.Lax, empties: s.Empties,
+		idle: time.Duration(s.IdleS) * time.Second}
 	f.cond = sync.NewCond(&f.mu)
 	return f
 }
@@ -224,6 +232,16 @@ func (f *streamFake) Read(p []byte) (int, error) {
 				f.cond.Wait() // the peer only talks again after it has seen our half-close
 				continue
 			}
+			if f.idle > 0 && !f.idled {
+				// the peer stays silent for f.idle of LOGICAL time after the half-close (no real waiting); a short real
+				// pause lets the relay finish whatever it does right after tryCloseWrite
+				f.idled = true
+				f.clockOff += f.idle
+				f.mu.Unlock()
+				time.Sleep(3 * time.Millisecond)
+				f.mu.Lock()
+				continue
+			}
 			if f.cw == 0 && !f.slept {
 				// opened by the peer's end: give the relay time to run its (invisible) tryCloseWrite on us
 				f.slept = true
@@ -234,6 +252,10 @@ func (f *streamFake) Read(p []byte) (int, error) {
 			}
 		}
 		break
+	}
+	if !f.deadline.IsZero() && time.Now().Add(f.clockOff).After(f.deadline) {
+		f.deadlineHits++
+		return 0, os.ErrDeadlineExceeded // net.Conn semantics: an expired absolute deadline fails every Read
 	}
 	if f.pos >= len(f.data) {
 		if f.ended {
@@ -314,6 +336,18 @@ func (f *streamFake) halfClose(tag string) error {
 
 func (f *streamFake) CloseWrite() error { return f.halfClose("cw") }
 
+// SetReadDeadline: like a net.Conn; evaluated against the endpoint's logical clock
+func (f *streamFake) SetReadDeadline(t time.Time) error {
+	f.mu.Lock()
+	f.deadline = t
+	if !t.IsZero() {
+		f.deadlineSets++
+	}
+	f.cond.Broadcast()
+	f.mu.Unlock()
+	return nil
+}
+
 // ---------------------------------------------------------------------------------------------
 // how an endpoint is handed to the relay: the REAL constructors of internal/utils/iocopy, in the
 // configurations the client call sites use (internal/client/mapping/base.go, target_handler.go createTunnelRWC,
@@ -339,6 +373,7 @@ type rawNoCW struct{ f *streamFake } // io.ReadWriteCloser without CloseWrite
 func (r rawNoCW) Read(p []byte) (int, error)  { return r.f.Read(p) }
 func (r rawNoCW) Write(p []byte) (int, error) { return r.f.Write(p) }
 func (r rawNoCW) Close() error                { return r.f.Close() }
+func (r rawNoCW) SetReadDeadline(t time.Time) error { return r.f.SetReadDeadline(t) }
 
 // expected (CloseWrite reaching the endpoint, closeWriteFunc calls, Close reaching the endpoint) per wrap:
 // proved for the model as Properties/C12.v C12_wrapper_dispatch_table
@@ -584,6 +619,7 @@ type caseOut struct {
 	T       *tcpObs  `json:"t,omitempty"`
 	R       *realObs `json:"r,omitempty"` // udpreal / vconn modes
 	G       *gateObs `json:"g,omitempty"` // udpgate mode
+	TC      *tcObs   `json:"tc,omitempty"` // udptc mode
 }
 
 func (o *caseOut) fail(key, format string, a ...interface{}) {
@@ -791,6 +827,8 @@ type tcpObs struct {
 	IOAfterC int      `json:"io_after_close"`
 	OnDone   int      `json:"on_complete_calls"`
 	WriteAfterCW int  `json:"write_after_half_close"`
+	DeadlineSets int  `json:"read_deadlines_armed"`
+	DeadlineHits int  `json:"reads_failed_by_deadline"`
 }
 
 func isPrefix(p, s []byte) bool { return len(p) <= len(s) && string(s[:len(p)]) == string(p) }
@@ -826,6 +864,8 @@ func runTCPCase(c *caseIn, out *caseOut) {
 	toA := append([]byte(nil), a.written...)
 	o.IOAfterC = a.ioAfterClos + b.ioAfterClos
 	o.WriteAfterCW = a.writeAfterCW + b.writeAfterCW
+	o.DeadlineSets = a.deadlineSets + b.deadlineSets
+	o.DeadlineHits = a.deadlineHits + b.deadlineHits
 	a.mu.Unlock()
 	b.mu.Unlock()
 	o.NToA, o.NToB = len(toA), len(toB)
@@ -877,6 +917,10 @@ func runTCPCase(c *caseIn, out *caseOut) {
 	if firstClose >= 0 && firstClose < lastHalf {
 		out.fail("tcp-early-close", "an endpoint was fully closed before both directions had finished (events %v)", o.Events)
 	}
+	if o.DeadlineHits != 0 {
+		out.fail("tcp-deadline-cut", "a read deadline armed by Bidirectional expired on a still-open direction (%d Reads failed with a timeout after a %d s idle period following the half-close): that direction was cut although its peer had not finished",
+			o.DeadlineHits, c.A.IdleS+c.B.IdleS)
+	}
 	if o.WriteAfterCW != 0 {
 		out.fail("tcp-write-after-half-close", "%d Writes hit an endpoint whose write side Bidirectional had already shut down", o.WriteAfterCW)
 	}
@@ -920,6 +964,8 @@ func runCase(raw json.RawMessage) interface{} {
 		runVConnCase(&c, out)
 	case "udpgate":
 		runUDPGateCase(&c, out)
+	case "udptc":
+		runUDPTCCase(&c, out)
 	default:
 		panic("bad mode " + c.Mode)
 	}
